@@ -10,10 +10,10 @@ Open Scope Z_scope.
 Definition sec : Z := 1000000000.
 
 (** the code before the heartbeat fix: keepLockfileFresh refreshes whatever file it finds *)
-Definition cfg_nofix : config := Config (5 * sec) sec 2 8 250000000 false false false (2 * sec) 0.
+Definition cfg_nofix : config := Config (5 * sec) sec 2 8 250000000 false false false false (2 * sec) 0.
 (** the code before the emptyCount fix (heartbeat fix applied): emptyCount is cumulative
     over the whole Lock call *)
-Definition cfg_asis : config := Config (5 * sec) sec 2 8 250000000 false true false (2 * sec) 0.
+Definition cfg_asis : config := Config (5 * sec) sec 2 8 250000000 false true false false (2 * sec) 0.
 
 (** ** 1. the zombie heartbeat
 
@@ -129,7 +129,7 @@ Qed.
 
 (** with a count that is reset by every successful decode the same schedule is harmless:
     the eighth gap read just sleeps again *)
-Definition cfg_resets : config := Config (5 * sec) sec 2 8 250000000 true true false (2 * sec) 0.
+Definition cfg_resets : config := Config (5 * sec) sec 2 8 250000000 true true false false (2 * sec) 0.
 Example empty_count_run_with_reset :
   run cfg_resets init empty_count_run = None /\
   exists s, run cfg_resets init (firstn 86 empty_count_run) = Some s /\
@@ -225,7 +225,7 @@ Qed.
     that ONE gap, treats the live lock as stale, removes it and creates its own; the
     heartbeat then writes the unlinked file.  Two holders, nobody killed, the heartbeat on
     time.  The empty-count reset cannot help: there is no successful read in between. *)
-Definition cfg_slow : config := Config (5 * sec) sec 2 8 250000000 true true false (2 * sec) (2 * sec).
+Definition cfg_slow : config := Config (5 * sec) sec 2 8 250000000 true true false false (2 * sec) (2 * sec).
 Definition gap_poll : list label := [LTick 250000000; LWake 1%nat; LTryCreate 1%nat; LOpenRead 1%nat].
 Definition long_gap_run : list label :=
   [LStart 0 0; LTryCreate 0; LWriteMeta 0; LStart 1 1; LTryCreate 1; LOpenRead 1;
